@@ -2,8 +2,11 @@ pub mod c01;
 pub mod c01_scaling;
 pub mod c02;
 pub mod c03;
+pub mod c12;
 pub mod c13;
 pub mod c17;
+pub mod c18;
+pub mod c19;
 pub mod docsweep;
 
 use serde_json::Value;
@@ -15,7 +18,10 @@ pub fn dispatch_run(id: &str, run: &mut Run) -> bool {
         "C01" => c01::run(run),
         "C02" => c02::run(run),
         "C03" => c03::run(run),
+        "C12" => c12::run(run),
         "C13" => c13::run(run),
+        "C18" => c18::run(run),
+        "C19" => c19::run(run),
         "C17" => c17::run(run),
         _ => return false,
     }
@@ -27,7 +33,10 @@ pub fn dispatch_replay(id: &str, check: &str, case: Value, run: &mut Run) -> Res
         "C01" => c01::replay(check, case, run),
         "C02" => c02::replay(check, case, run),
         "C03" => c03::replay(check, case, run),
+        "C12" => c12::replay(check, case, run),
         "C13" => c13::replay(check, case, run),
+        "C18" => c18::replay(check, case, run),
+        "C19" => c19::replay(check, case, run),
         "C17" => c17::replay(check, case, run),
         _ => Err(format!("unknown property {id}")),
     }
